@@ -4,6 +4,7 @@
       rd.rsub / rd.tsub  kind value digits:u16  -> value   (kind 1 NaiveTime, 2 NaiveDateTime, 3 DateTime) *)
 From Coq Require Import ZArith List Bool String.
 From V Require Import Base.Int Base.IO Model.TimeDelta Model.DateTime.
+From V Require Model.Date Model.Time.
 From V Require Export Model.Round.
 Import ListNotations.
 Open Scope Z_scope.
@@ -15,7 +16,7 @@ Definition subsec_op (f : forall T, tl T -> T -> Z -> R T) (args : list val) : v
       | None => VBad
       | Some digits =>
           if kind =? 1 then
-            match T.dec_time v with Some t => val_of_R T.enc_time (f _ time_ops t digits) | None => VBad end
+            match Time.dec_time v with Some t => val_of_R Time.enc_time (f _ time_ops t digits) | None => VBad end
           else if kind =? 2 then
             match dec_ndt v with Some a => val_of_R enc_ndt (f _ ndt_ops a digits) | None => VBad end
           else if kind =? 3 then
